@@ -597,14 +597,18 @@ def c05(report):
               ("radius", "lin-ucb", dict(radius=(3, 1))), ("lsh", "pop", {}), ("knearest", "random", {}),
               # deterministic policies: one policy copy serves all rows of a chunk, so each row must start from a full reset
               ("radius", "ucb1", dict(radius=(1, 1))), ("knearest", "ucb1", dict(k=1)), ("lsh", "ucb1", dict(n_dims=3)),
-              ("radius", "softmax", dict(radius=(1, 1))), ("knearest", "pop", dict(k=2))]
+              ("radius", "softmax", dict(radius=(1, 1))), ("knearest", "pop", dict(k=2)),
+              # metrics whose scale would be estimated from the rows handed to cdist together
+              ("radius", "ucb1", dict(metric="seuclidean", radius=(2, 1))), ("knearest", "eg", dict(metric="mahalanobis", k=2))]
     if not thorough:
-        keep = [c for i, c in enumerate(combos) if (i + report.seed) % 2 == 0 or c[1] in ("lin-ts", "ucb1") or c[0] == "tree"]
+        keep = [c for i, c in enumerate(combos) if (i + report.seed) % 2 == 0 or c[1] in ("lin-ts", "ucb1") or c[0] == "tree"
+                or c[2].get("metric") in ("seuclidean", "mahalanobis")]
         combos = keep
     cfgs = [nb.NbConfig(np_, lp=lp, **kw) for np_, lp, kw in combos]
     use = schedules if thorough else [s for s in schedules if s["m"] >= 2][:: 2]
     par.leg_b(cfgs, use, report.seed, findings, counters)
     par.fit_orders([c for c in cfgs if c.np == "tree"], report.seed, findings, counters)
+    par.fit_orders_cf(report.seed, findings, counters)
     # leg C: real joblib runs with hooks on
     jobs = [(1, None), (2, "threading"), (3, "threading"), (4, None), (-1, "threading")]
     if thorough:
